@@ -26,13 +26,33 @@ for p in sorted(glob.glob(os.path.join(root, 'mutants', 'revert-D*.patch'))):
     if got:
         ids = ' '.join(k for k, v in sorted(got.items()) if v == 'CAUGHT')
     print("| %s | %s |" % (name, ids.replace(' ', ', ')))
+print("\n### 13.1b Hand-written mutants from the lists in section 5 (`mutants/hand-*.patch`)\n")
+print("Eleven more candidates from those lists turned out to be caught by the repository's own tests and are")
+print("therefore not mutants (reserved SUBSCRIBE flags dropped, decode-only property loss, buffer one byte too")
+print("large, type-0 body not read, boolean check removed, unknown ids skipped, missing-data check loosened,")
+print("ConnAck.String size, SetQoS not clearing, SetUsername flag, withForm dropped, nil will in dump,")
+print("filters[0] unchecked). `hand-c18-stars-n-SILENT` is the must-stay-silent case: every check is silent on it.\n")
+print("| mutant | what | caught by (quick tier) |\n|---|---|---|")
+for p in sorted(glob.glob(os.path.join(root, 'mutants', 'hand-*.patch'))):
+    name = os.path.basename(p)[:-6]
+    desc, ids = '', ''
+    for l in open(p):
+        if l.startswith('# breaks:'):
+            ids = l.split(':', 1)[1].strip()
+        elif l.startswith('# ') and not desc:
+            desc = l[2:].strip()
+    print("| %s | %s | %s |" % (name, desc, ids.replace(' ', ', ') or '(none: silent, as it must be)'))
 print("\n### 13.2 Changes seeded by independent sub-agents (`seeded/<property>-<a|b>/`)\n")
 print("Each sub-agent was given only the text of one property and a scratch worktree; it wrote a")
 print("change that breaks the property yet passes the suite, plus a demonstration test")
 print("(`demo_test.go`, fails with the change, passes without). Each was confirmed with")
 print("`scripts/seedconfirm.sh` before being kept. \"first round\" = the checks as they were when the")
 print("change arrived.\n")
-print("| id | change | needs, to manifest | first round | now caught by |\n|---|---|---|---|---|")
+print("Round 1: only the property text. Round 2: also told what round 1 had tried. Round 3 (ids T<theme>-<a|b|c>): all 19")
+print("property texts, a theme (1 performance refactors, 2 spec-compliance fixes, 3 API evolution, 4 error handling,")
+print("5 integer/length arithmetic, 6 de-duplication, 7 concurrency/global state, 8 diagnostics code) and the 76 earlier")
+print("ideas to avoid; every quick check was run against each round-3 change (`notes/matrix-round3.tsv`).\n")
+print("| id | breaks | change | needs, to manifest | when it arrived | now caught by |\n|---|---|---|---|---|---|")
 first_miss = {'C01-b', 'C02-b', 'C06-a', 'C06-b', 'C10-b', 'C14-a', 'C14-b', 'C18-a', 'C19-b'}
 for d in sorted(glob.glob(os.path.join(root, 'seeded', '*', 'meta.json'))):
     m = json.load(open(d))
@@ -42,4 +62,4 @@ for d in sorted(glob.glob(os.path.join(root, 'seeded', '*', 'meta.json'))):
     got = matrix.get(k)
     if got:
         caught = ', '.join(x for x, v in sorted(got.items()) if v == 'CAUGHT')
-    print("| %s | %s | %s | %s | %s |" % (k, m['what'], m['needs_to_manifest'], fr, caught))
+    print("| %s | %s | %s | %s | %s | %s |" % (k, m['breaks_property'], m['what'], m['needs_to_manifest'], fr, caught))
